@@ -6,6 +6,7 @@
 -/
 import Rsdns.Model.Client
 import Rsdns.Lemmas.Bits
+import Rsdns.Lemmas.Guards
 
 set_option linter.unusedVariables false
 
@@ -47,7 +48,7 @@ theorem tcp_only_sends_no_datagram (c : Cfg) (hs : c.strat = 1) (id : Nat) (qnam
   split
   · rfl
   · split <;> try rfl
-    simp only [hu, Bool.false_eq_true, if_false]
+    simp only [Cfg.udpBranch_eq, hu, Bool.false_eq_true, if_false]
     split <;> (try split) <;> rfl
 
 /-- **UDP-only: no TCP connection is ever opened**, and a truncated response is returned as it is -/
@@ -60,7 +61,7 @@ theorem notcp_never_connects (c : Cfg) (hs : c.strat = 2) (id : Nat) (qname : By
   split
   · rfl
   · split <;> try rfl
-    simp only [hu, if_true, ht, Bool.and_false, Bool.false_eq_true, if_false]
+    simp only [Cfg.udpBranch_eq, Cfg.tcpFallback_eq, hu, if_true, ht, Bool.and_false, Bool.false_eq_true, if_false]
     split <;> rfl
 
 /-- **default strategy**: a truncated UDP response makes the same question go out over TCP (one
@@ -83,15 +84,23 @@ theorem udp_fallback (c : Cfg) (hs : c.strat = 0) (id : Nat) (qname : Bytes) (qt
   · intro htc
     simp only [run]
     unfold queryRaw
-    simp only [hb, if_false, hm, hu, if_true, hx, htc, ht, Bool.and_self]
+    simp only [Cfg.bufTooShort_eq, Cfg.udpBranch_eq, Cfg.tcpFallback_eq, decide_eq_true_eq, hb, if_false, hm, hu, if_true, hx, htc, ht, Bool.and_self]
     constructor <;> first | rfl | trivial
   · intro htc
     simp only [run]
     unfold queryRaw
-    simp only [hb, if_false, hm, hu, if_true, hx, htc, Bool.false_and, Bool.false_eq_true]
+    simp only [Cfg.bufTooShort_eq, Cfg.udpBranch_eq, Cfg.tcpFallback_eq, decide_eq_true_eq, hb, if_false, hm, hu, if_true, hx, htc, Bool.false_and, Bool.false_eq_true]
     constructor <;> first | rfl | trivial
 
 /-- the truncation bit the clients look at is bit 9 of the flags word of the accepted response -/
 theorem tc_bit (flags : Nat) : flags_tc flags = flags.testBit 9 := flags_tc_eq flags
+
+/-! ### the transport decisions regenerated from `query_raw_impl` of both clients -/
+
+/-- for the blocking client and for the async template alike: UDP is tried exactly when `udp_first()`
+    says so, and the TCP re-ask happens exactly when the accepted answer has TC set and `tcp_allowed()` -/
+theorem transport_decisions (c : Cfg) (tc : Bool) :
+    c.udpBranch = c.udpFirst ∧ c.tcpFallback tc = (tc && c.tcpAllowed) :=
+  ⟨Cfg.udpBranch_eq c, Cfg.tcpFallback_eq c tc⟩
 
 end Rsdns.C13
